@@ -385,7 +385,7 @@ func (rb *rebooter) run(model *simdisk.FSModel, img map[string][]byte, mem *memo
 	simos.ResetLocks()
 	kv := simdisk.FromMem(mem, nil)
 	w := &world{knobs: rb.p.Knobs, tree: rb.tree, root: nroot, clock: kv.Clock, kv: kv, engine: rb.engine, res: rb.res, bubble: true,
-		live: map[logKey]bool{}, universe: rb.tree.universe(), trace: simcore.NewHash(), stateFP: simcore.NewHash(), headNode: -1, finalNode: -2, dupLogBlock: -2, crashed: true}
+		live: map[logKey]bool{}, universe: rb.tree.universe(), trace: simcore.NewHash(), stateFP: simcore.NewHash(), headNode: -1, finalNode: -2, dupLogBlock: -2, crashed: true, unexecuted: map[int]bool{}, badBlock: -2}
 	defer func() {
 		// best-effort tear-down; a wedged chain after a violation must not hide it
 		func() {
@@ -403,7 +403,8 @@ func (rb *rebooter) run(model *simdisk.FSModel, img map[string][]byte, mem *memo
 			v := viol("reboot-open-failed", "rawdb.Open on the crash image failed: %v", err)
 			v.Key = "reboot-open-failed:" + rb.modeKey() + ":" + classOf(err.Error())
 			if k := rb.h.opAt(rb.cut); (strings.Contains(err.Error(), "already extracted") || strings.Contains(err.Error(), "gap in the chain between ancients")) && k >= 0 && k < len(rb.h.ops) &&
-				(rb.h.ops[k].kind == "insert" || rb.h.ops[k].kind == "setcanon") && !rb.tree.isAncestorOrSelf(rb.headBefore(k), rb.h.ops[k].headAfter) {
+				(rb.h.ops[k].kind == "insert" || rb.h.ops[k].kind == "setcanon") && !rb.tree.isAncestorOrSelf(rb.headBefore(k), rb.h.ops[k].headAfter) &&
+				rawdb.ReadHeadHeaderHash(kv) == rb.tree.blockOf(rb.headBefore(k)).Hash() {
 				// same window as reboot-canon-gap:reorg-deletes-old-index-before-moving-head, with the
 				// fork point at genesis or at the last frozen block: the canonical hash right above
 				// the freezer is gone while the head markers still name the old head, and rawdb.Open
@@ -452,7 +453,7 @@ func (rb *rebooter) run(model *simdisk.FSModel, img map[string][]byte, mem *memo
 			// loadLastState finds the head block missing and calls Reset -> SetHead(0); the
 			// rewind callback dereferences bc.CurrentBlock(), which is still nil at that point
 			v.Key = "reboot-panic:reset-on-missing-head-block-dereferences-nil-current-block"
-		case v.Oracle == "reboot-log-crit" && strings.Contains(v.Msg, "Failed to repair history") && strings.Contains(v.Msg, "gap between state"):
+		case v.Oracle == "reboot-log-crit" && strings.Contains(v.Msg, "Failed to repair history") && strings.Contains(v.Msg, "gap between state") && rb.restartedBefore():
 			// pathdb refuses to open: the loaded disk layer id is ahead of the state history
 			// freezer (seen when a journal of an earlier session is still in the database and
 			// matches the disk root again after a rollback)
@@ -488,7 +489,10 @@ func (rb *rebooter) judge(w *world, bound int64, boundWhy string) *simcore.Viola
 			if opk > 0 {
 				before = rb.h.ops[opk-1].headAfter
 			}
-			if !rb.tree.isAncestorOrSelf(before, rb.h.ops[opk].headAfter) {
+			if !rb.tree.isAncestorOrSelf(before, rb.h.ops[opk].headAfter) && w.gapAt == bc.CurrentHeader().Number.Uint64() &&
+				bc.CurrentHeader().Hash() == rb.tree.blockOf(before).Hash() {
+				// the head markers still name the operation's old head and it is that very block
+				// whose canonical hash is gone
 				// a reorganisation whose first new block sits directly on the old canonical chain:
 				// reorg() deletes the old canonical hashes above the fork point in one batch, the
 				// head markers move in a later one (writeHeadBlock)
@@ -562,6 +566,14 @@ func (rb *rebooter) judge(w *world, bound int64, boundWhy string) *simcore.Viola
 	for len(path) > 0 && rb.tree.isAncestorOrSelf(path[0].idx, hnode) {
 		path = path[1:]
 	}
+	// blocks that are stored without receipts (insertSideChain) and whose state the rebooted
+	// node nevertheless reports as available: classification of a recorded finding
+	ghost := map[int]bool{}
+	for _, n := range rb.tree.path(tnode) {
+		if w.known(n) && !rawdb.HasReceipts(w.db, n.block.Hash(), n.depth) && bc.HasState(n.block.Root()) {
+			ghost[n.idx] = true
+		}
+	}
 	if len(path) > 0 {
 		n, err := bc.InsertChain(rb.tree.blocks(path))
 		if err != nil {
@@ -584,7 +596,7 @@ func (rb *rebooter) judge(w *world, bound int64, boundWhy string) *simcore.Viola
 	if v != nil {
 		v = pre(v)
 		v.Msg = "after re-import: " + v.Msg
-		if v.Oracle == "reboot-canon-receipts-missing" {
+		if v.Oracle == "reboot-canon-receipts-missing" && ghost[w.badBlock] {
 			// a block stored without execution (insertSideChain) passed for "known with state"
 			// (stale state root on disk / stale pathdb journal) and became canonical
 			v.Key = "reboot-canon-receipts-missing:unexecuted-sidechain-block-canonicalised"
@@ -750,4 +762,16 @@ func hangStack(st string) string {
 		}
 	}
 	return "(stack of the blocked goroutine not found)"
+}
+
+// restartedBefore: the history has a clean Stop + reopen before the interrupted operation
+// (a pathdb journal of an earlier session is in the database).
+func (rb *rebooter) restartedBefore() bool {
+	k := rb.h.opAt(rb.cut)
+	for i := 0; i < k && i < len(rb.h.ops); i++ {
+		if rb.h.ops[i].kind == "reopen" {
+			return true
+		}
+	}
+	return false
 }
